@@ -5,6 +5,8 @@ import JaxVerif.Spec.Trees
 import JaxVerif.Generated.Skeleton
 import JaxVerif.Spec.Calls
 import JaxVerif.Lemmas.Trees
+import JaxVerif.Source.Trees
+import JaxVerif.Lemmas.Treepath
 
 namespace JV
 
@@ -64,5 +66,32 @@ private def sk0 : Skel := ⟨.baseException, .baseException, true, true, true, t
 example : (checkL sk0 (.pytree (.tuple [.int, .int]) none)
     (.list [.tuple [.int 1, .int 2], .none, .tuple [], .dict ["k"] [.tuple [.int 3, .int 4]]]) {}).2 = .T := by decide
 example : (checkL sk0 (.pytree (.tuple [.int, .int]) none) (.list [.tuple [.int 1, .str "x"]]) {}).2 = .F := by decide
+
+/-- **the code as written today is the model's**: `_MetaPyTree.__instancecheck__` and `_check`, translated statement by
+    statement from the current source on this run, compute `pytreeInstancecheck` with every structural fact true — for
+    every value, every leaf check that hands the flatten-mode flag back as it found it (it may bind, answer False, raise),
+    every structure string, every thread state, inside or outside a context; bare `PyTree` answers True and touches
+    nothing. -/
+theorem C08_source_instancecheck (env : TEnv) (ac : Catch) (hf : FlattenKept env.leafCheck) (st : CState) :
+    runInstancecheck env Generated.instancecheckCode Generated.checkCode st =
+      some (if env.bare then (st, .T)
+            else pytreeInstancecheck (goodSkel ac) env.leafCheck env.leafAny env.S env.x st) :=
+  source_tree_instancecheck env ac hf st
+
+/-- `cls.leaftype is Any` -/
+def isAnyL : LType → Bool
+  | .any => true
+  | _ => false
+
+/-- … in particular for every leaf type of the model without a structure name inside: what the translated code computes
+    for `isinstance(x, PyTree[l])` / `PyTree[l, S]` is `checkL` of the model, the function `C08_memofree_check`,
+    `C08_nested`, `C08_arrays` and `C08_reject_binds_nothing` speak about -/
+theorem C08_source_checkL (ac : Catch) (l : LType) (hl : FlagTransparent l) (S : Option String) (x : Obj) (st : CState) :
+    runInstancecheck ⟨checkL (goodSkel ac) l, isAnyL l, S, x, false⟩
+        Generated.instancecheckCode Generated.checkCode st
+      = some (checkL (goodSkel ac) (.pytree l S) x st) := by
+  rw [source_tree_instancecheck _ ac
+    (fun y s' => (checkL_flagsEq (goodSkel ac) ⟨⟨rfl, rfl⟩, rfl, rfl⟩ l hl y s').2)]
+  cases l <;> simp [checkL, isAnyL]
 
 end JV
